@@ -19,16 +19,22 @@ pub mod c42;
 pub mod c43;
 pub mod c44;
 pub mod c45;
+pub mod kalman;
 pub mod packet;
 pub mod server;
 pub mod source;
 
 pub fn registry() -> Vec<Entry> {
     vec![
+        entry::<kalman::C01>(false),
+        entry::<kalman::C02>(false),
+        entry::<kalman::C03>(false),
+        entry::<kalman::C04>(false),
+        entry::<kalman::C06>(false),
         entry::<source::C07>(false),
         entry::<source::C08>(false),
         entry::<source::C09>(false),
-        entry::<source::C10>(false),
+        entry::<kalman::C10>(false),
         entry::<source::C11>(false),
         entry::<source::C12>(false),
         entry::<source::C13>(false),
